@@ -967,3 +967,37 @@ Proof. reflexivity. Qed.
    each is a key of the parser's table (finite check, used by the harness's token tie) *)
 Lemma binop_names_distinct : forall o1 o2, binop_name o1 = binop_name o2 -> o1 = o2.
 Proof. destruct o1, o2; intros H; try reflexivity; discriminate H. Qed.
+
+(* the map-key side condition of wf_expr holds for every valid UTF-8 key (Proofs/LiteralProofs.v) *)
+Theorem key_ok_valid_utf8 k : Utf8.utf8_valid k = true -> key_ok k.
+Proof. apply key_roundtrip. Qed.
+
+(* the float side condition of wf_expr is decidable: a checker, sound by construction *)
+Definition fl_same (x y : fl) : bool :=
+  match x, y with
+  | FNaN, FNaN => true
+  | FInf a, FInf c | FZero a, FZero c => Bool.eqb a c
+  | FFin m e, FFin m' e' => (m =? m')%Z && (e =? e')%Z
+  | _, _ => false
+  end.
+
+Lemma fl_same_eq x y : fl_same x y = true -> x = y.
+Proof.
+  destruct x, y; cbn [fl_same]; try discriminate; try reflexivity.
+  - intros H. apply Bool.eqb_prop in H. congruence.
+  - intros H. apply Bool.eqb_prop in H. congruence.
+  - intros H. apply andb_true_iff in H. destruct H as [H1 H2]. f_equal; lia.
+Qed.
+
+Definition float_okb (f : fl) : bool :=
+  match fl_print f with
+  | Some s => match parse_float s with Some g => fl_same g f | None => false end
+  | None => false
+  end.
+
+Lemma float_okb_sound f : float_okb f = true -> float_ok f.
+Proof.
+  unfold float_okb, float_ok. destruct (fl_print f) as [s|]; [|discriminate].
+  destruct (parse_float s) as [g|] eqn:E; [|discriminate]. intros H. apply fl_same_eq in H. subst g.
+  exists s. split; [reflexivity | exact E].
+Qed.
